@@ -136,6 +136,10 @@ fn walk_items(items: &[syn::Item], prefix: &str, out: &mut Vec<Value>) {
                     "span":jr(t.span()),"start":first_non_attr_start(t.span(),&t.attrs),
                     "brace_open": rng(t.brace_token.span.open()).1, "brace_close": rng(t.brace_token.span.close()).0}));
                 for ti in &t.items {
+                    if let syn::TraitItem::Type(ty) = ti {
+                        out.push(json!({"kind":"trait_type","key":format!("{}{}::{}", prefix, t.ident, ty.ident),"span":jr(ty.span()),
+                            "start":first_non_attr_start(ty.span(),&ty.attrs)}));
+                    }
                     if let syn::TraitItem::Fn(f) = ti {
                         let st = first_non_attr_start(f.span(), &f.attrs);
                         out.push(fn_json(format!("{}{}::{}", prefix, t.ident, f.sig.ident), &f.attrs, st, &f.sig, f.default.as_ref(), f.span()));
